@@ -238,14 +238,20 @@ func runC30(c *Ctx) {
 	// (4) contract comparisons (one set per loop: tests and examples)
 	loops := 0
 	for _, s := range fd.Body.List {
-		fs, ok := s.(*ast.ForStmt)
-		if !ok {
+		var fs ast.Stmt
+		var loopBody *ast.BlockStmt
+		switch x := s.(type) {
+		case *ast.ForStmt:
+			fs, loopBody = x, x.Body
+		case *ast.RangeStmt:
+			fs, loopBody = x, x.Body
+		default:
 			continue
 		}
 		loops++
 		name := fmt.Sprintf("runTest: loop #%d", loops)
 		passEq, failNeq, panicNil, panicPrefix := false, false, false, false
-		ast.Inspect(fs.Body, func(n ast.Node) bool {
+		ast.Inspect(loopBody, func(n ast.Node) bool {
 			ifs, ok := n.(*ast.IfStmt)
 			if !ok {
 				return true
